@@ -491,8 +491,26 @@ CORPUS = [
 ]
 
 
+def colsel_cases():
+    """every permutation of 4 channels and every index list of <= 3 channels with repeats, as a whole-recording
+    channel selection followed by arithmetic and as the channel selector of a read (a selector that is not a sorted
+    run must not be treated as one: seeded change C01-m4 sits on the code path C02 shares)"""
+    import itertools
+    c = 4
+    sels = [list(p) for p in itertools.permutations(range(c))]
+    for k in (1, 2, 3):
+        sels += [list(t) for t in itertools.product(range(c), repeat=k)]
+    out = []
+    for j, sel in enumerate(sels):
+        cs = ['list', sel]
+        cmds = [['d', 0, ['cols', cs]], ['d', 1, ADD2], ['r', 2, R13, None], ['r', 0, R13, cs], ['r', 1, ['int', -1], None]]
+        out.append(mk('prog', [5] if j % 2 else [2, 3], c, cmds, backend='array' if j % 2 else 'flat'))
+    return out
+
+
 def generate(tier, rng):
     cases = list(CORPUS)
+    cases += colsel_cases()
     if tier == 'search':
         cases += [rand_tree(rng) for _ in range(1500)] + [rand_prog(rng) for _ in range(1500)]
         return [c for c in cases if valid_case(c)]
